@@ -8,7 +8,7 @@ summary. Exit 1 if a seed is no longer detected.
 
   seedmatrix.py [<seed-id> ...]
 """
-import json, os, subprocess, sys, time, shutil
+import re, json, os, subprocess, sys, time, shutil
 
 ROOT = os.path.dirname(os.path.dirname(os.path.abspath(__file__)))
 WT = "/tmp/seedmatrix"
@@ -16,7 +16,7 @@ WORK = "/tmp/seedmatrix-work"
 
 
 def main():
-    ids = sys.argv[1:] or sorted(d for d in os.listdir(os.path.join(ROOT, "seeded")) if os.path.isdir(os.path.join(ROOT, "seeded", d)))
+    ids = sys.argv[1:] or sorted(d for d in os.listdir(os.path.join(ROOT, "seeded")) if os.path.isdir(os.path.join(ROOT, "seeded", d)) and re.match(r"C\d\d-\d+$", d))
     head = subprocess.check_output(["git", "-C", "/repo", "rev-parse", "HEAD"], text=True).strip()
     if not os.path.isdir(WT):
         subprocess.check_call(["git", "-C", "/repo", "worktree", "add", "--detach", WT, head], stdout=subprocess.DEVNULL, stderr=subprocess.DEVNULL)
